@@ -58,8 +58,14 @@ func (u *Universe) Lexeme(k int, r *Rand) string {
 	case KLLater:
 		return cm(r.Pick(u.ListedLater))
 	case KSOnly:
+		if r.Chance(1, 8) { // every ACTIVE id takes the suffix (C05 / C08), also one that already ends in a listed suffix
+			return cm(r.Pick(append(append([]string{}, u.ListedOnly...), u.ListedLater...))) + "-only"
+		}
 		return cm(r.Pick(u.SynthBase)) + "-only"
 	case KSLater:
+		if r.Chance(1, 8) {
+			return cm(r.Pick(append(append([]string{}, u.ListedOnly...), u.ListedLater...))) + "-or-later"
+		}
 		return cm(r.Pick(u.SynthBase)) + "-or-later"
 	case KDep:
 		return cm(r.Pick(u.DepPlain))
